@@ -71,7 +71,8 @@ variable {γ α : Type} [DecidableEq γ] [DecidableEq α]
 
 /-- `unset_index (set_index f c drop=True)`: the cells of `f` with column `c` moved to the front
     (label `c` first, the other labels in order), every row keeps its cells, the index is the
-    automatic one. -/
+    automatic one.  No hypothesis on the number of columns: the case where `c` is the only column
+    (the intermediate frame has rows but no column) is included. -/
 theorem index_moves_inverse (f g h : Fr γ α) (c : γ) (auto : Nat → α) (an : γ)
     (h1 : setIndex f c true = .ok g) (h2 : unsetIndex g [] auto an = .ok h) :
     ∃ j, locToIloc f.columns c = .ok j ∧ j < f.columns.length ∧
@@ -148,6 +149,16 @@ example :
     let f : Fr Nat Nat := ⟨[100], [[0], [1]], [10, 11, 12], [[1, 2, 3], [4, 5, 6]]⟩
     (setIndex f 11 true >>= fun g => unsetIndex g [] id 100) =
       .ok ⟨[100], [[0], [1]], [11, 10, 12], [[2, 1, 3], [5, 4, 6]]⟩ := by decide
+
+/-- every column consumed (`shape_reference`, commit 0a55f7a): the intermediate frame has its two
+    rows and no column; `unset_index` restores the cells -/
+example :
+    let f : Fr Nat Nat := ⟨[100], [[0], [1]], [10, 11], [[1, 2], [4, 5]]⟩
+    setIndexHierarchy f [11, 10] true = .ok ⟨[11, 10], [[2, 1], [5, 4]], [], [[], []]⟩ ∧
+    (setIndexHierarchy f [11, 10] true >>= fun g => unsetIndex g [] id 100) =
+      .ok ⟨[100], [[0], [1]], [11, 10], [[2, 1], [5, 4]]⟩ ∧
+    (setIndex ⟨[100], [[0], [1]], [10], [[7], [8]]⟩ 10 true >>= fun g => unsetIndex g [] id 100) =
+      .ok (⟨[100], [[0], [1]], [10], [[7], [8]]⟩ : Fr Nat Nat) := by decide
 
 example :
     let f : Fr Nat Nat := ⟨[100], [[0], [1]], [10, 11, 12], [[1, 2, 3], [4, 5, 6]]⟩
